@@ -18,21 +18,21 @@ NA = {
 }
 CHECKS = {
  'C01': ('accum', 'E1 accumulator machine: seeded update/compute histories vs. one-batch twin of the same class',
-         'Seeded search over batch partitions, compute interleavings, dtypes, precisions, class lists, clock scripts and worker counts; bitwise oracle in the exact regime. Sampling, not proof: a clean batch is evidence.', '4 C01'),
+         'Seeded search over batch partitions (up to 1000 rows, batches of one), compute interleavings, trace/data dtypes over their full range, memory layouts, precisions, class lists, clock scripts and worker counts; bitwise oracle in the exact regime. Sampling, not proof: a clean batch is evidence.', '4 C01, 9.3'),
  'C02': ('pipeline', 'E2 pipeline simulation over fake storage: exactly-once/in-order/own-metadata at the update boundary + one-shot twin',
-         'Seeded search over (N, batch rule, frame, preprocess chain, class, direction, multi-run) with the recorded update history checked post hoc.', '4 C02'),
+         'Seeded search over (N, batch rule, frame incl. unsorted/negative index lists, preprocess chain, word selection, class, direction, convergence step, multi-run) with the recorded update history checked post hoc against independently computed rows and intermediate values, and results against the standalone distinguisher.', '4 C02, 9.3'),
  'C08': ('pipeline', 'E2 pipeline simulation: convergence columns vs. fresh attacks on observed batch boundaries (assignment search)',
-         'Seeded search over (N, step, batch rule, runs); each column must equal a fresh attack on an observed prefix.', '4 C08'),
+         'Seeded search over (N, step, batch rule, runs, NaN-producing metadata); each column must equal the one-shot scores on an observed prefix under a strictly increasing, step-spaced assignment.', '4 C08'),
  'C09': ('ttest', 'E3 deterministic thread simulation (baton scheduler at line granularity) with storage/callback fault injection',
-         'Seeded search over interleavings of the two accumulator threads and the main thread, batch rules, thread failures; Welch reference, schedule independence, failure re-raised.', '4 C09'),
+         'Seeded search over interleavings of the two accumulator threads and the main thread (9 scheduling policies incl. PCT), batch rules, thread failures in one or several runs, batch-rule flips, stalls; Welch reference, schedule independence, failure re-raised, conservation after a failure.', '4 C09, 9.3'),
  'C11': ('accum', 'E1 under scripted process_time (kernel schedule) and worker-count sequences: all environments must agree',
-         'Same history executed under 4-8 simulated environments (every kernel sequence reachable by the code is producible by the scripted clock); bitwise in the exact regime, requested-precision tolerance otherwise.', '4 C11'),
+         'Same history executed under 4-8 simulated environments (every kernel sequence reachable by the code is producible by the scripted clock; worker counts 1..16); bitwise in the exact regime (incl. narrow integer and float32 traces at float64 precision), requested-precision tolerance otherwise.', '4 C11'),
  'C14': ('pipeline', 'E2 template lifecycle (refused run before build, build, match) vs. small executable reference model',
-         'Seeded search over building/matching sets, batch rules, class lists, precisions; independent numpy float64 model of templates, pooled covariance and scores.', '4 C14'),
- 'C16': ('accum', 'E1 + E2 with injected refusals (11 refusal kinds, low memory, storage/callback faults): refused call leaves no trace vs. accepted-only twin',
-         'Seeded search over histories with refused calls at any position incl. first; count and every later result compared with a twin that only saw the accepted calls.', '4 C16'),
+         'Seeded search over building/matching sets (classes with 0/1/many building traces), batch rules, class lists, value dtypes, precisions, second build, storage fault during build, sibling objects; independent numpy float64 model of templates, pooled covariance and scores.', '4 C14, 9.1, 9.3'),
+ 'C16': ('accum', 'E1 + E2 with injected refusals (13 refusal kinds incl. low memory and refusal inside the compiled kernel; storage/callback faults; refusals inside update during run): refused call leaves no trace vs. accepted-only twin',
+         'Seeded search over histories with refused calls at any position incl. first; count, every later result and (run level) the convergence trace compared with a twin that only saw the accepted calls.', '4 C16, 9.3'),
  'C20': ('sync', 'E4 synchronizer simulation: accept/raise/None fault sequences vs. list-filter reference model over a real ETS file',
-         'Seeded search over fault patterns (incl. warning-threshold run lengths), metadata kinds, output path kinds; output rows, order, metadata and counters vs. model.', '4 C20'),
+         'Seeded search over fault patterns (incl. warning-threshold run lengths), metadata kinds, output path kinds, returned length/dtype, check() before run(); output rows, order, metadata and counters vs. model.', '4 C20'),
 }
 NOTE = 'Trusted base: the harness (generator, oracles, scheduler), numpy, numba, estraces, CPython 3.12. Twin oracles compare scared with scared; a numba kernel call is atomic; see DESIGN.md 2.5/4.4 for bounds and blind spots.'
 m = {
@@ -49,7 +49,7 @@ m = {
  ],
  'checks': [],
  'not_applicable': [{'property_id': k, 'reason': v} for k, v in sorted(NA.items())],
- 'notes': 'Technique: deterministic simulation with fault injection (seeded search; one integer = one execution; replay files). Exit 2 = HARNESS-ERROR.',
+ 'notes': 'Technique: deterministic simulation with fault injection (seeded search; one integer = one execution; replay files). Exit 2 = HARNESS-ERROR. Self-tests: selftest/determinism.py, selftest/sensitivity.py (own mutants + behaviour-preserving controls), selftest/findings.py (fixed defects replay on the pre-fix trees), tools/seeded.py rerun (independent seeded changes, DESIGN.md section 10). Five genuine defects were found and repaired by fix: commits in /repo (known_findings.json).',
 }
 m['engines'] = [e for e in m['engines'] if any(p in BUILT for p in e['serves_properties'])]
 for pid in sorted(CHECKS):
